@@ -14,7 +14,7 @@
    with no trie open: values read [vs], final in-memory tries [st], events [evs].
    [ev_blobs evs]: every blob a resolution returned.  W: ANY list of blobs taken as
    the witness (duplicates, junk and foreign nodes allowed). *)
-From GV Require Import Lib.Tactics Lib.Bytes Trie.Hex Trie.Node Trie.Ops Trie.Hash Trie.Commit Trie.Witness Trie.WitnessProofs.
+From GV Require Import Lib.Tactics Lib.Bytes Trie.Hex Trie.Node Trie.Ops Trie.Hash Trie.Commit Trie.Witness Trie.WitnessProofs Trie.WitnessComplete.
 Local Open Scope N_scope.
 
 (* sufficiency: when the witness holds every blob the full run resolved, re-running the
@@ -79,16 +79,48 @@ Theorem C34_shipped_witness_minimal : forall n evs b,
 Proof. exact collect_resolved. Qed.
 Print Assumptions C34_shipped_witness_minimal.
 
-(* ... and holds every resolved blob whenever no trie resolved two different blobs at
-   one path ([tracer_complete], computed by the model on every correspondence case:
-   always true).  PARTIAL: that [tracer_complete] holds for every session over a
-   store that holds a committed trie (one node per path) is not proved here; full
-   statement: forall sessions, run .. = TOk (_, st, evs) ->
-   incl (ev_blobs evs) (witness_nodes (collect (length st) evs)). *)
-Theorem C34_shipped_witness_complete_partial : forall n evs,
-  tracer_complete n evs = true -> incl (ev_blobs evs) (witness_nodes (collect n evs)).
-Proof. exact collect_complete. Qed.
-Print Assumptions C34_shipped_witness_complete_partial.
+(* ... and holds EVERY resolved blob, for every session (trie.New / Get / Update /
+   Delete incl. branch collapse with sibling resolution, over the account trie and any
+   number of storage tries) whose readers answer BY PATH: whatever hash is asked for
+   at a path of trie i, the blob returned there is the same ([by_path]) — which is how
+   the path database reads (C34_path_reader_by_path, for ARBITRARY stores).  The only
+   way to lose a blob is PrevalueTracer.Put overwriting a different blob at the same
+   path; [by_path] excludes it. *)
+Theorem C34_shipped_witness_complete : forall (H : list N -> list N) rs,
+  by_path rs ->
+  forall ops vs st evs,
+    run H rs [] ops = TOk (vs, st, evs) ->
+    incl (ev_blobs evs) (witness_nodes (collect (length st) evs)).
+Proof. exact shipped_witness_complete. Qed.
+Print Assumptions C34_shipped_witness_complete.
+
+(* end to end: re-running the session over MakeHashDB of exactly what geth ships
+   reproduces the full run (same events, values, in-memory tries, hence roots) *)
+Theorem C34_shipped_witness_reproduces : forall (H : list N -> list N) rs,
+  by_path rs ->
+  forall NS : list N -> Prop, (forall a b, NS a -> NS b -> H a = H b -> a = b) ->
+  hashed H NS rs ->
+  forall ops vs st evs,
+    run H rs [] ops = TOk (vs, st, evs) ->
+    run_stateless H (witness_nodes (collect (length st) evs)) ops = TOk (vs, st, evs).
+Proof. exact shipped_witness_reproduces. Qed.
+Print Assumptions C34_shipped_witness_reproduces.
+
+Theorem C34_path_reader_by_path : forall (H : list N -> list N) (Ss : nat -> store),
+  by_path (fun i => resolve_of H PathScheme (Ss i)).
+Proof. exact path_readers_by_path. Qed.
+Print Assumptions C34_path_reader_by_path.
+
+(* a hash-scheme full node whose store holds, under its hash, every node the
+   path-scheme stores serve makes the IDENTICAL run (same events), so both theorems
+   above hold for its witness too *)
+Theorem C34_hash_node_same_run : forall (H : list N -> list N) NS (Ss : nat -> store) Sh ops vs st evs,
+  hashed H NS (fun i => resolve_of H PathScheme (Ss i)) ->
+  (forall i h p n b, resolve_of H PathScheme (Ss i) h p = Some (n, b) -> am_get h Sh = Some b) ->
+  run H (fun i => resolve_of H PathScheme (Ss i)) [] ops = TOk (vs, st, evs) ->
+  run H (fun _ => resolve_of H HashScheme Sh) [] ops = TOk (vs, st, evs).
+Proof. exact hash_node_same_run. Qed.
+Print Assumptions C34_hash_node_same_run.
 
 (* the node readers of the full node satisfy [hashed] *)
 Theorem C34_hash_reader_hashed : forall (H : list N -> list N) (NS : list N -> Prop) S,
@@ -148,7 +180,13 @@ Print Assumptions C34_block_missing_node.
    branch collapse: >= 6 witness nodes, the shipped witness is complete, the re-run is
    identical, and every single-node removal yields MissingNodeError *)
 Example C34_nonvacuous :
-  (forall a b, In a ex_blobs -> In b ex_blobs -> toyH a = toyH b -> a = b) /\
-  hashed toyH (fun b => In b ex_blobs) ex_rs /\
-  (Nat.leb 10 (length ex_blobs) && ex_check) = true.
-Proof. exact ex_hypotheses. Qed.
+  ((forall a b, In a ex_blobs -> In b ex_blobs -> toyH a = toyH b -> a = b) /\
+   hashed toyH (fun b => In b ex_blobs) ex_rs /\
+   (Nat.leb 10 (length ex_blobs) && ex_check) = true) /\
+  (* the same two tries in two path stores: the path-scheme run equals the hash-scheme
+     run and the re-run over the shipped witness is identical *)
+  ((forall a b, In a ex_pblobs -> In b ex_pblobs -> toyH a = toyH b -> a = b) /\
+   hashed toyH (fun b => In b ex_pblobs) ex_prs /\
+   by_path ex_prs /\
+   ex_pcheck = true).
+Proof. exact (conj ex_hypotheses ex_phypotheses). Qed.
